@@ -41,7 +41,7 @@ func c12RunSched(id, kind string, seed int64, nworkers, nops, stormMs int, sched
 	rnd := rand.New(rand.NewSource(seed))
 	srv := mcp.NewServer("verif", "1.0", mcp.WithServerPath("/mcp"), mcp.WithServerLogger(silentLogger{}), mcp.WithStatelessMode(true), mcp.WithPostSSEEnabled(false))
 	ts := httptest.NewServer(srv.Handler())
-	defer func() { ts.CloseClientConnections(); ts.Close() }()
+	defer func() { closeClientConns(ts); closeTS(ts) }()
 	url := ts.URL + "/mcp"
 	ctx := context.Background()
 	var mu sync.Mutex
